@@ -151,3 +151,124 @@ package kvql
 //@     invariant emitted: len(ret) == count && count == a.current - old(a.current) && count >= 0 && a.current <= a.Limit
 //@     invariant st: a.prepared && a.skips == a.Start && !finish && a.current < a.Limit && len(rows) > 0 && 0 <= a.pos && a.pos <= len(a.aggrRows)
 //@     invariant src: a.pos == a.Start + a.current - (rangeindex + 1) + len(rows)
+//
+// ---------------------------------------------------------------------------------------------
+// Group keys (C09: two pairs share a group only if all their GROUP BY values are equal).
+// A group key is the concatenation of the length-prefixed renderings of the GROUP BY values:
+// enc(x) = be32(len x) ++ x. Equal keys have equal parts (lemmas gk_inj1..3, proved from the
+// cancellation law of concatenation and the injectivity of the 4-byte length prefix).
+//@ define enc(x B) B = cat(be32(blen(x)), x)
+//@ axiom cat_cancel(x B, y B, u B, v B): cat(x, y) == cat(u, v) && blen(x) == blen(u) ==> x == u && y == v
+//
+//@ lemma gk_inj1(a B, b B, ra B, rb B)
+//@   props C09
+//@   use cat_cancel(be32(blen(a)), cat(a, ra), be32(blen(b)), cat(b, rb))
+//@   use cat_cancel(a, ra, b, rb)
+//@   requires blen(a) < 4294967296 && blen(b) < 4294967296 && cat(enc(a), ra) == cat(enc(b), rb)
+//@   ensures a == b && ra == rb
+//
+//@ lemma gk_inj2(a1 B, a2 B, b1 B, b2 B)
+//@   props C09
+//@   use gk_inj1(a1, b1, enc(a2), enc(b2))
+//@   use gk_inj1(a2, b2, "", "")
+//@   requires blen(a1) < 4294967296 && blen(b1) < 4294967296 && blen(a2) < 4294967296 && blen(b2) < 4294967296 && cat(enc(a1), enc(a2)) == cat(enc(b1), enc(b2))
+//@   ensures a1 == b1 && a2 == b2
+//
+//@ lemma gk_inj3(a1 B, a2 B, a3 B, b1 B, b2 B, b3 B)
+//@   props C09
+//@   use gk_inj1(a1, b1, cat(enc(a2), enc(a3)), cat(enc(b2), enc(b3)))
+//@   use gk_inj2(a2, a3, b2, b3)
+//@   requires blen(a1) < 4294967296 && blen(b1) < 4294967296 && blen(a2) < 4294967296 && blen(b2) < 4294967296 && blen(a3) < 4294967296 && blen(b3) < 4294967296 && cat(enc(a1), cat(enc(a2), enc(a3))) == cat(enc(b1), cat(enc(b2), enc(b3)))
+//@   ensures a1 == b1 && a2 == b2 && a3 == b3
+//
+//@ func appendKeyPart(key []byte, part []byte) (ret []byte)
+//@   props C09
+//@   assigns nothing
+//@   ensures[C09] part: len(part) < 4294967296 ==> val(ret) == cat(val(key), enc(val(part)))
+//
+// gbytes(x): the rendering of a GROUP BY value as bytes; gkN(a, k, v, n): the key built from the
+// first n GROUP BY values of plan a on the pair (k, v).
+//@ define gbytes(x Any) B = ite(isText(x), textOf(x), ite(isbool(x), ite(bval(x), "true", "false"), itoa(intof(x))))
+//@ define gbOK(x Any) Bool = (isText(x) || isbool(x) || isInt(x)) && blen(gbytes(x)) < 4294967296
+//@ specfun gkN(Int, B, B, Int) B
+//@ axiom gk_step(a *AggregatePlan, k B, v B, n Int): gkN(a, k, v, 0) == "" && (n > 0 ==> gkN(a, k, v, n) == cat(gkN(a, k, v, n - 1), enc(gbytes(evalv(a.GroupByFields[n - 1].Expr, k, v)))))
+//
+//@ func (a *AggregatePlan) convertToBytes(val any) (ret []byte, err error)
+//@   props C09
+//@   assigns nothing
+//@   ensures[C09] rendering: gbOK(val) ==> err == nil && val(ret) == gbytes(val)
+//@   ensures[C09] text: isText(val) ==> err == nil && val(ret) == textOf(val)
+//@   ensures[C09] truth: isbool(val) ==> err == nil && val(ret) == ite(bval(val), "true", "false")
+//@   ensures[C09] decimal: isInt(val) ==> err == nil && val(ret) == itoa(intof(val))
+//
+//@ func (a *AggregatePlan) getAggrKey(key []byte, val []byte, ctx *ExecuteCtx) (gk string, err error)
+//@   props C09
+//@   requires a != nil && (forall i Int :: 0 <= i && i < len(a.GroupByFields) ==> a.GroupByFields[i].Expr != nil)
+//@   assigns ctx.Hit, mapof(ctx.FieldCaches)
+//@   ensures[C09] all: err == nil && a.AggrAll ==> gk == defaultAggrKey
+//@   ensures[C09] parts: err == nil && !a.AggrAll && (forall j Int :: 0 <= j && j < len(a.GroupByFields) ==> gbOK(evalv(a.GroupByFields[j].Expr, val(key), val(val)))) ==> val(gk) == gkN(a, val(key), val(val), len(a.GroupByFields))
+//@   loop 0
+//@     invariant (forall j Int :: 0 <= j && j < len(a.GroupByFields) ==> gbOK(evalv(a.GroupByFields[j].Expr, val(key), val(val)))) ==> val(gkey) == gkN(a, val(key), val(val), rangeindex + 1)
+//@     use gk_step(a, val(key), val(val), rangeindex + 2)
+//@     use gk_step(a, val(key), val(val), 0)
+//
+// Soundness of grouping for 1, 2 and 3 GROUP BY expressions: pairs with the same key have the
+// same rendering of every GROUP BY value.
+//@ define gpart(a *AggregatePlan, j Int, k B, v B) B = gbytes(evalv(a.GroupByFields[j].Expr, k, v))
+//@ define small(x B) Bool = blen(x) < 4294967296
+//@ lemma group_sound1(a *AggregatePlan, k1 B, v1 B, k2 B, v2 B)
+//@   props C09
+//@   use gk_step(a, k1, v1, 1)
+//@   use gk_step(a, k2, v2, 1)
+//@   use gk_inj1(gpart(a, 0, k1, v1), gpart(a, 0, k2, v2), "", "")
+//@   requires small(gpart(a, 0, k1, v1)) && small(gpart(a, 0, k2, v2)) && gkN(a, k1, v1, 1) == gkN(a, k2, v2, 1)
+//@   ensures gpart(a, 0, k1, v1) == gpart(a, 0, k2, v2)
+//
+//@ lemma group_sound2(a *AggregatePlan, k1 B, v1 B, k2 B, v2 B)
+//@   props C09
+//@   use gk_step(a, k1, v1, 1)
+//@   use gk_step(a, k2, v2, 1)
+//@   use gk_step(a, k1, v1, 2)
+//@   use gk_step(a, k2, v2, 2)
+//@   use gk_inj2(gpart(a, 0, k1, v1), gpart(a, 1, k1, v1), gpart(a, 0, k2, v2), gpart(a, 1, k2, v2))
+//@   requires small(gpart(a, 0, k1, v1)) && small(gpart(a, 0, k2, v2)) && small(gpart(a, 1, k1, v1)) && small(gpart(a, 1, k2, v2)) && gkN(a, k1, v1, 2) == gkN(a, k2, v2, 2)
+//@   ensures gpart(a, 0, k1, v1) == gpart(a, 0, k2, v2) && gpart(a, 1, k1, v1) == gpart(a, 1, k2, v2)
+//
+//@ lemma group_sound3(a *AggregatePlan, k1 B, v1 B, k2 B, v2 B)
+//@   props C09
+//@   use gk_step(a, k1, v1, 1)
+//@   use gk_step(a, k2, v2, 1)
+//@   use gk_step(a, k1, v1, 2)
+//@   use gk_step(a, k2, v2, 2)
+//@   use gk_step(a, k1, v1, 3)
+//@   use gk_step(a, k2, v2, 3)
+//@   use gk_inj3(gpart(a, 0, k1, v1), gpart(a, 1, k1, v1), gpart(a, 2, k1, v1), gpart(a, 0, k2, v2), gpart(a, 1, k2, v2), gpart(a, 2, k2, v2))
+//@   requires small(gpart(a, 0, k1, v1)) && small(gpart(a, 0, k2, v2)) && small(gpart(a, 1, k1, v1)) && small(gpart(a, 1, k2, v2)) && small(gpart(a, 2, k1, v1)) && small(gpart(a, 2, k2, v2)) && gkN(a, k1, v1, 3) == gkN(a, k2, v2, 3)
+//@   ensures gpart(a, 0, k1, v1) == gpart(a, 0, k2, v2) && gpart(a, 1, k1, v1) == gpart(a, 1, k2, v2) && gpart(a, 2, k1, v1) == gpart(a, 2, k2, v2)
+//
+// The batch form builds the same keys, pair by pair.
+//@ func (a *AggregatePlan) batchGetAggrKeys(chunk []KVPair, ctx *ExecuteCtx) (ret []string, err error)
+//@   props C09 C03
+//@   ghost m Int
+//@   requires a != nil && (forall i Int :: 0 <= i && i < len(a.GroupByFields) ==> a.GroupByFields[i].Expr != nil)
+//@   assigns ctx.Hit, mapof(ctx.FieldCaches), mapof(ctx.FieldChunkKeyCaches), mapof(ctx.FieldChunkCaches)
+//@   ensures[C09] count: err == nil ==> len(ret) == len(chunk)
+//@   ensures[C09] twin: err == nil && !a.AggrAll && 0 <= m && m < len(chunk) && (forall j Int :: 0 <= j && j < len(a.GroupByFields) ==> gbOK(evalv(a.GroupByFields[j].Expr, ck(chunk, m), cv(chunk, m)))) ==> val(ret[m]) == gkN(a, ck(chunk, m), cv(chunk, m), len(a.GroupByFields))
+//@   loop 0
+//@     invariant 0 <= i && i <= len(chunk) && len(ret) == len(chunk) && fresh(ret)
+//@   loop 1
+//@     invariant len(ret) == len(chunk) && fresh(ret) && len(fields) == len(a.GroupByFields) && fresh(fields)
+//@     invariant forall j Int :: 0 <= j && j <= rangeindex && j < len(fields) ==> rowsOf(a.GroupByFields[j].Expr, chunk, fields[j])
+//@   loop 2
+//@     invariant 0 <= local(i#3) && local(i#3) <= len(chunk) && len(ret) == len(chunk) && fresh(ret) && len(fields) == len(a.GroupByFields)
+//@     invariant forall j Int :: 0 <= j && j < len(fields) ==> rowsOf(a.GroupByFields[j].Expr, chunk, fields[j])
+//@     invariant m < local(i#3) && (forall j Int :: 0 <= j && j < len(a.GroupByFields) ==> gbOK(evalv(a.GroupByFields[j].Expr, ck(chunk, m), cv(chunk, m)))) && 0 <= m ==> val(ret[m]) == gkN(a, ck(chunk, m), cv(chunk, m), len(a.GroupByFields))
+//@   loop 3
+//@     invariant 0 <= j && j <= len(fields) && 0 <= local(i#3) && local(i#3) < len(chunk) && len(ret) == len(chunk) && fresh(ret) && len(fields) == len(a.GroupByFields)
+//@     invariant forall q Int :: 0 <= q && q < len(fields) ==> rowsOf(a.GroupByFields[q].Expr, chunk, fields[q])
+//@     invariant (forall q Int :: 0 <= q && q < len(a.GroupByFields) ==> gbOK(evalv(a.GroupByFields[q].Expr, ck(chunk, local(i#3)), cv(chunk, local(i#3))))) ==> val(aggKey) == gkN(a, ck(chunk, local(i#3)), cv(chunk, local(i#3)), j)
+//@     invariant m < local(i#3) && (forall q Int :: 0 <= q && q < len(a.GroupByFields) ==> gbOK(evalv(a.GroupByFields[q].Expr, ck(chunk, m), cv(chunk, m)))) && 0 <= m ==> val(ret[m]) == gkN(a, ck(chunk, m), cv(chunk, m), len(a.GroupByFields))
+//@     use local(i#3)
+//@     use j
+//@     use gk_step(a, ck(chunk, local(i#3)), cv(chunk, local(i#3)), j + 1)
+//@     use gk_step(a, ck(chunk, local(i#3)), cv(chunk, local(i#3)), 0)
